@@ -35,6 +35,9 @@ var bdAlphabet = []bdOp{
 	// before the last Reset / Take -- anything remembered about the old content by its LENGTH (an offset cached for a
 	// fast path) meets the same length again in the new epoch
 	{"EF", ""}, {"EL", ""},
+	// a pre-redacted operand as a caller can make one (a lone closing marker): not a redactable, but Reset and Take still
+	// have to leave an object that behaves like a new one (F11: Take left the envelope flag set)
+	{"PR", "\u203a"},
 }
 
 func bdApplyWrite(sb *redact.StringBuilder, o bdOp) {
@@ -45,6 +48,8 @@ func bdApplyWrite(sb *redact.StringBuilder, o bdOp) {
 		sb.UnsafeString(o.P)
 	case "P":
 		sb.Print(o.P, 7)
+	case "PR":
+		sb.Print(redact.RedactableString(o.P))
 	}
 }
 
@@ -94,7 +99,7 @@ func judgeBuilder(rep *lib.Report, k bdCase) {
 			o = bdOp{"S", strings.Repeat("e", n)}
 			bdApplyWrite(&sb, o)
 			since = append(since, o)
-		case "S", "U", "P":
+		case "S", "U", "P", "PR":
 			bdApplyWrite(&sb, o)
 			since = append(since, o)
 		case "RST":
